@@ -214,6 +214,33 @@ def run(an: Analysis, rep):
             f"decoder pre-marks len({dec_fields}) leading local slots, the encoder pre-assigns exactly those" if dec_fields == enc_fields
             else f"decoder pre-marks the slots of {dec_fields}, encoder pre-assigns {enc_fields}")
 
+    # duplicates (entries that always keep their override) are detected with the table's own key function
+    keyattr = next((fl.name for fl in f.cls.fields if "Callable" in ast.dump(fl.annotation)), None)
+    dupsites = []
+    for m in f.cls.methods.values():
+        s_ = m.params[0] if m.params else None
+        for n in ast.walk(m.node):
+            if isinstance(n, (ast.ListComp, ast.GeneratorExp, ast.SetComp, ast.DictComp)) and len(n.generators) >= 1:
+                g0 = n.generators[0]
+                src_ok = isinstance(g0.iter, ast.Attribute) and isinstance(g0.iter.value, ast.Name) and g0.iter.value.id == s_ and g0.iter.attr not in (mapattr,)
+                if not src_ok or not isinstance(g0.target, ast.Name):
+                    continue
+                elt = n.elt if not isinstance(n, ast.DictComp) else n.value
+                for c in ast.walk(elt):
+                    if isinstance(c, ast.Call) and len(c.args) == 1 and isinstance(c.args[0], ast.Name) and c.args[0].id == g0.target.id:
+                        dupsites.append((m, c))
+            if isinstance(n, ast.Call) and isinstance(n.func, ast.Name) and n.func.id == "map" and len(n.args) == 2 \
+                    and isinstance(n.args[1], ast.Attribute) and isinstance(n.args[1].value, ast.Name) and n.args[1].value.id == s_:
+                dupsites.append((m, ast.Call(func=n.args[0], args=[ast.Name("x", ast.Load())], keywords=[])))
+    if keyattr and dupsites:
+        for m, c in dupsites:
+            fnode = c.func
+            ok = isinstance(fnode, ast.Attribute) and isinstance(fnode.value, ast.Name) and fnode.value.id == m.params[0] and fnode.attr == keyattr
+            rep.add("R09.2", f"{m.qual}::duplicates keyed by the table's key function", ok, loc(m.module, m.node),
+                    f"entries are compared through self.{keyattr}, the key the encoder looks values up by" if ok else
+                    f"table entries are keyed with `{norm_src(fnode)}` here, not with self.{keyattr} (the key the encoder looks values up by): entries the encoder keeps apart are "
+                    f"treated as duplicates and keep a redundant position override - or real duplicates are missed and the re-encoding merges them")
+
     # R09.3 additional args
     gen = None
     for m in f.cls.methods.values():
